@@ -63,10 +63,32 @@ def Shape.callable : Shape → Bool
   | .value => false
   | _ => true
 
+/-- the kind of OBJECT a replacement hands back (the token `r` next to it stands for the object's identity).
+    Nothing in mock_.py looks at the result: `_AsynqWrapper.__call__` is `ConstFuture(self._mock_fn(...))` and
+    `_AsyncioWrapper` returns it from a coroutine, whatever it is - in particular a result that happens to be one
+    of asynq's own futures (a "handle") is NOT resolved, and a falsy result is not mistaken for "no result". -/
+inductive RKind where
+  | plain                                          -- an ordinary int
+  | none | falsy                                   -- None; a fresh falsy object ([] / 0.0 / __bool__ -> False)
+  | constFuture | lazyFuture | errorFuture | task  -- asynq.ConstFuture / Future(provider) not yet computed /
+                                                   -- ErrorFuture / an AsyncTask handle
+  | excInstance                                    -- an exception instance that is returned, not raised
+  | exotic                                         -- __eq__ / __bool__ / __repr__ raise, unhashable
+  | container                                      -- a tuple / subclass of a built-in container
+  deriving Repr, DecidableEq, Inhabited
+
+/-- the kind of exception a replacement raises (the token stands for the exception object's identity) -/
+inductive EKind where
+  | exception     -- an ordinary `Exception` subclass
+  | baseOnly      -- derives from `BaseException` only (passes every `except Exception`)
+  | falsy         -- an exception whose `__bool__` is False / `__len__` is 0
+  | builtinSub    -- subclass of a built-in (KeyError) with several args
+  deriving Repr, DecidableEq, Inhabited
+
 /-- what the user-level callable behind an object does when it is finally invoked -/
 inductive Behav where
-  | ret (r : Nat)
-  | raise (e : Nat)
+  | ret (r : Nat) (k : RKind := .plain)
+  | raise (e : Nat) (k : EKind := .exception)
   deriving Repr, DecidableEq, Inhabited
 
 structure Obj where
@@ -101,13 +123,13 @@ def Obj.tok (o : Obj) : Tok :=
 /-! ## Calling conventions -/
 
 inductive Exc where
-  | user (e : Nat)
+  | user (e : Nat) (k : EKind := .exception)
   | typeError | attributeError | valueError
   | other
   deriving Repr, DecidableEq, Inhabited
 
 inductive Out where
-  | ok (r : Nat)
+  | ok (r : Nat) (k : RKind := .plain)
   | raised (x : Exc)
   deriving Repr, DecidableEq, Inhabited
 
@@ -132,8 +154,8 @@ def Conv.all : List Conv := [.sync, .value, .yield, .asyncio]
 
 /-- what the caller sees when the user-level callable returns / raises -/
 def Behav.out : Behav → Out
-  | .ret r => .ok r
-  | .raise e => .raised (.user e)
+  | .ret r k => .ok r k
+  | .raise e k => .raised (.user e k)
 
 /-- the user-level callable behind `o` runs once -/
 def invoke (o : Obj) (args : List Nat) (kw : List (Nat × Nat)) : ConvRes :=
@@ -241,13 +263,21 @@ inductive Repl where
   deriving Repr, DecidableEq, Inhabited
 
 structure PSpec where
-  target : Nat
+  target : Nat           -- `_patch.target`: the host the patcher acts on (an index into the environment's targets);
+                         -- (re)set by `step` from `slot` at construction and at every `__enter__` (see `resolveP`)
   repl : Repl
   create : Bool
   autospecNone : Bool    -- the caller passed autospec=None explicitly; otherwise the function's own default applies
   viaObject : Bool       -- built with `patch.object(obj, name, ...)` rather than `patch("path.name", ...)`
   behav : Behav
+  slot : Nat := target   -- the NAME the caller gave: the dotted path `pkg.Owner.attr` (or, for patch.object, the
+                         -- owner that path names at construction).  What a name refers to can change (`Op.rebind`).
+  share : Option Nat := none  -- `some q`: the `new` argument is the very object that patcher q was given (one
+                         -- callable / value used as the replacement in several patches, possibly open at once)
   deriving Repr, DecidableEq, Inhabited
+
+/-- the identity of the `new` argument itself: the patcher's own object, or the one it shares -/
+def PSpec.newId (s : PSpec) (p : Nat) : ObjId := .given (s.share.getD p)
 
 def Repl.isNewCallable : Repl → Bool
   | .newCallable _ => true
@@ -276,15 +306,15 @@ def maybeWrapNew (p : Nat) (s : PSpec) : Option Obj :=
   | .default | .newCallable _ => none                   -- `if new is mock.DEFAULT: return new`
   | r =>
     match r.desc? with
-    | some d =>                                         -- `return asynq(sync_fn=new)(new)`
-      some { id := .made p 0, shape := .pair d, attached := false, callee := .given p, behav := s.behav }
+    | some d =>                                         -- `return asynq(sync_fn=new)(new)`: a NEW object per patcher
+      some { id := .made p 0, shape := .pair d, attached := false, callee := s.newId p, behav := s.behav }
     | none =>
       if !r.isCallable then                             -- `elif not callable(new): return new`
-        some { id := .given p, shape := .value, attached := false, callee := .given p, behav := s.behav }
-      else if !r.acceptsAttrs then                      -- should_wrap: `return Wrapper()`
-        some { id := .made p 0, shape := .wrapper, attached := false, callee := .given p, behav := s.behav }
-      else                                              -- `return new`
-        some { id := .given p, shape := .callobj, attached := false, callee := .given p, behav := s.behav }
+        some { id := s.newId p, shape := .value, attached := false, callee := s.newId p, behav := s.behav }
+      else if !r.acceptsAttrs then                      -- should_wrap: `return Wrapper()`: a NEW object per patcher
+        some { id := .made p 0, shape := .wrapper, attached := false, callee := s.newId p, behav := s.behav }
+      else                                              -- `return new`: the caller's object itself, shared or not
+        some { id := s.newId p, shape := .callobj, attached := false, callee := s.newId p, behav := s.behav }
 
 structure Patcher where
   spec : PSpec
@@ -326,26 +356,30 @@ structure State where
   active : List Nat                            -- `_patch._active_patches`
   skip : Option (Nat × Nat)                    -- inside the body of a `with` whose __enter__ raised (patcher, nesting)
   stack : List (Entry Obj)                     -- GHOST: patchers entered and not yet exited, most recent first
+  bind : Nat → Nat                             -- which target the dotted path of slot `s` names right now (the owner
+                                               -- in `pkg.Owner.attr` is itself a rebindable attribute of `pkg`)
   deriving Inhabited
 
 def upd {α : Type} (f : Nat → α) (k : Nat) (v : α) : Nat → α := fun i => if i = k then v else f i
 
 def init (env : Env) : State :=
   { store := env.initStore, patchers := fun _ => none, saved := fun _ => none, entries := fun _ => 0,
-    active := [], skip := none, stack := [] }
+    active := [], skip := none, stack := [], bind := fun s => s }
 
 inductive Op where
   | construct (p : Nat) (s : PSpec)   -- `asynq.mock.patch(...)` / `patch.object(...)`
   | enter (p : Nat)                   -- `with patcher:` / decorated function called
   | exit (p : Nat) (exc : Bool)       -- the block is left, normally or by an exception
   | start (p : Nat) | stop (p : Nat) | stopall
-  | call (t : Nat) (args : List Nat) (kw : List (Nat × Nat))   -- all four conventions on target t
+  | call (t : Nat) (args : List Nat) (kw : List (Nat × Nat))   -- all four conventions on what slot t names now
   | peek
+  | rebind (s t : Nat)                -- the owner in the dotted path of slot s now is the owner of target t
+                                      -- (`pkg.Owner = OtherClass`: done by the test itself, by another patch, by a reload)
   deriving Repr, DecidableEq, Inhabited
 
 def Op.name : Op → String
   | .construct .. => "construct" | .enter _ => "enter" | .exit .. => "exit" | .start _ => "start"
-  | .stop _ => "stop" | .stopall => "stopall" | .call .. => "call" | .peek => "peek"
+  | .stop _ => "stop" | .stopall => "stopall" | .call .. => "call" | .peek => "peek" | .rebind .. => "rebind"
 
 inductive Res where
   | made                      -- construct succeeded
@@ -452,6 +486,18 @@ def callAll (env : Env) (st : State) (t : Nat) (args : List Nat) (kw : List (Nat
     | some o => Conv.all.map fun c => conv o .inst c args kw   -- found on the instance's class
     | none => Conv.all.map fun _ => failWith .attributeError
 
+/-- the owner a patcher's name refers to under the current bindings -/
+def retarget (bind : Nat → Nat) (s : PSpec) : PSpec := { s with target := bind s.slot }
+
+/-- `_patch.__enter__` starts with `self.target = self.getter()`.  For `patch("pkg.Owner.attr")` the getter is
+    `lambda: _importer("pkg.Owner")` (mock._get_target): the path is looked up at EVERY entry, so the patch acts on
+    what the name means now - not at construction, not at the first use.  For `patch.object(obj, ...)` the getter is
+    `lambda: target` (`_patch_object` in mock_.py): always the object given at construction. -/
+def resolveP (bind : Nat → Nat) (pt : Patcher) : Patcher :=
+  if pt.spec.viaObject then pt else { pt with spec := retarget bind pt.spec }
+
+def setPatcher (st : State) (p : Nat) (pt : Patcher) : State := { st with patchers := upd st.patchers p (some pt) }
+
 def step (env : Env) (st : State) (op : Op) : State × Res :=
   match st.skip with
   | some (q, d) =>
@@ -468,14 +514,16 @@ def step (env : Env) (st : State) (op : Op) : State × Res :=
       match st.patchers p with
       | some _ => (st, .skipped)
       | none =>
-        match construct env.defaults p s with
+        -- the harness hands `patch.object` the owner the name refers to at this moment
+        match construct env.defaults p (retarget st.bind s) with
         | .ok pt => ({ st with patchers := upd st.patchers p (some pt) }, .made)
         | .error x => (st, .raised x)
     | .enter p =>
       match st.patchers p with
       | none => ({ st with skip := some (p, 0) }, .noPatcher)
-      | some pt =>
-        let (st', r) := enter env pt p st
+      | some pt0 =>
+        let pt := resolveP st.bind pt0
+        let (st', r) := enter env pt p (setPatcher st p pt)
         match r with
         | .entered _ => (st', r)
         | _ => ({ st' with skip := some (p, 0) }, r)
@@ -486,14 +534,15 @@ def step (env : Env) (st : State) (op : Op) : State × Res :=
     | .start p =>
       match st.patchers p with
       | none => (st, .noPatcher)
-      | some pt => start env pt p st
+      | some pt0 => start env (resolveP st.bind pt0) p (setPatcher st p (resolveP st.bind pt0))
     | .stop p =>
       match st.patchers p with
       | none => (st, .noPatcher)
       | some pt => stop env pt p st
     | .stopall => stopallLoop env st.active.length st
-    | .call t args kw => (st, .called (callAll env st t args kw))
+    | .call t args kw => (st, .called (callAll env st (st.bind t) args kw))
     | .peek => (st, .unit)
+    | .rebind s t => ({ st with bind := upd st.bind s t }, .unit)
 
 /-- what a read-only observer records after every operation: the result and the whole store -/
 structure Obs where
@@ -593,6 +642,7 @@ structure Watch where
   active : List Nat               -- started and not stopped, in start order
   skip : Option (Nat × Nat)
   tainted : Bool                  -- the history left the well-nested discipline: nothing is claimed any more
+  bind : Nat → Nat := fun s => s  -- what each name refers to, from the `rebind` operations the observer saw
   deriving Inhabited
 
 def watchInit : Watch := { specs := fun _ => none, stack := [], active := [], skip := none, tainted := false }
@@ -613,16 +663,16 @@ def expectedPrefix (r : Repl) (via : Via) : Option (List Nat) :=
     | none => some []
 
 /-- who must end up being called: the user's `new`, or the object made for DEFAULT / new_callable -/
-def expectedCallee (p : Nat) (r : Repl) (o : Tok) : ObjId :=
-  match r with
+def expectedCallee (p : Nat) (s : PSpec) (o : Tok) : ObjId :=
+  match s.repl with
   | .default | .newCallable _ => o.id
-  | _ => .given p
+  | _ => s.newId p
 
 def expectedConv (p : Nat) (s : PSpec) (o : Tok) (via : Via) (args : List Nat) (kw : List (Nat × Nat)) :
     Option ConvRes :=
   (expectedPrefix s.repl via).map fun pre =>
     { out := s.behav.out,
-      calls := [{ callee := expectedCallee p s.repl o, args := pre ++ args, kw := kw }] }
+      calls := [{ callee := expectedCallee p s o, args := pre ++ args, kw := kw }] }
 
 def topFor {α : Type} (t : Nat) : List (Entry α) → Option (Entry α)
   | [] => none
@@ -645,8 +695,11 @@ def enterWatch (env : Env) (w : Watch) (ob : Obs) (p : Nat) (isStart : Bool) : E
     if ob.res == .noPatcher && ob.peeks == expectedPeeks env w then
       .ok (if isStart then w else { w with skip := some (p, 0) })
     else .error "unknown-patcher"
-  | some s =>
+  | some s0 =>
     if isOpen p w.stack then .ok { w with tainted := true } else
+    -- the patch acts on what its name refers to NOW (string form) / on the object given at construction (patch.object)
+    let s := if s0.viaObject then s0 else retarget w.bind s0
+    let w := { w with specs := upd w.specs p (some s) }
     let present := (expectAt (fun t => (env.initStore t).map Obj.tok) w.stack s.target).isSome
                    || (env.inh s.target).isSome
     if !s.create && !present then
@@ -657,7 +710,7 @@ def enterWatch (env : Env) (w : Watch) (ob : Obs) (p : Nat) (isStart : Bool) : E
     else
       match ob.res with
       | .entered o =>
-        if s.repl == .value && o != { id := .given p, tag := .asis } then .error "noncallable-as-is" else
+        if s.repl == .value && o != { id := s.newId p, tag := .asis } then .error "noncallable-as-is" else
         let w' := { w with stack := { p := p, t := s.target, o := o } :: w.stack, active := if isStart then w.active ++ [p] else w.active }
         if ob.peeks == expectedPeeks env w' then .ok w' else .error "installed"
       | _ => .error "enter"
@@ -685,7 +738,7 @@ def watchStep (env : Env) (w : Watch) (ob : Obs) : Except String Watch :=
         -- every `PSpec` is a legitimate use of patch / patch.object: the patcher must come into being
         if ob.res != .made then .error "construct"
         else if ob.peeks != expectedPeeks env w then .error "store"
-        else .ok { w with specs := upd w.specs p (some s) }
+        else .ok { w with specs := upd w.specs p (some (retarget w.bind s)) }
     | .enter p => enterWatch env w ob p false
     | .start p => enterWatch env w ob p true
     | .exit p exc =>
@@ -721,6 +774,7 @@ def watchStep (env : Env) (w : Watch) (ob : Obs) : Except String Watch :=
       if ob.peeks != expectedPeeks env w then .error "store" else
       match ob.res with
       | .called rs =>
+        let t := w.bind t                    -- the caller goes through the name: what it refers to now
         match topFor t w.stack with
         | none => .ok w                      -- target not patched: the original's behaviour is not C19's business
         | some e =>
@@ -732,6 +786,11 @@ def watchStep (env : Env) (w : Watch) (ob : Obs) : Except String Watch :=
             | some e => if rs == [e, e, e, e] then .ok w else .error "conventions"
       | _ => .error "call"
     | .peek => if ob.peeks == expectedPeeks env w then .ok w else .error "store"
+    | .rebind s t =>
+      -- rebinding a name touches no host: every open patch stays where it was entered
+      if ob.res != .unit then .error "rebind"
+      else if ob.peeks != expectedPeeks env w then .error "store"
+      else .ok { w with bind := upd w.bind s t }
 
 def watchRun (env : Env) (w : Watch) : List Obs → Except String Watch
   | [] => .ok w
@@ -752,3 +811,71 @@ def specClause (env : Env) (obs : List Obs) : String :=
   | .error e => e
 
 end AsynqModel.Mock
+
+/-! ## A replacement that `__enter__` cannot decorate (family `enterfail` of the check; its own small model)
+
+`_PatchAsync.__enter__` is
+
+    mock_fn = super().__enter__()          # unittest.mock: the replacement IS installed now, the original saved
+    if callable(mock_fn):
+        mock_fn.asynq = _AsynqWrapper(mock_fn) ...   # raises AttributeError / TypeError if it takes no attributes
+
+For an explicit `new`, `_maybe_wrap_new` has put such an object into a `Wrapper()` that takes attributes.  The product
+of `new_callable` is not wrapped.  If it is callable and takes no attributes (`__slots__`, an extension type) the
+second step raises AFTER the first one has installed it, and nobody calls `__exit__`: a `with` statement does not
+call `__exit__` when `__enter__` raised (PEP 343), `decoration_helper` registers a patching with its ExitStack only
+after `enter_context` returned, `start()` appends to `_active_patches` only after `__enter__` returned (so `stop()`
+answers None and `stopall()` does not see it).  The main model above has no such product (`Repl.newCallable` makes
+an attribute-accepting callable or a non-callable), which is why its theorems are unconditional. -/
+namespace AsynqModel.Mock.EnterFail
+
+/-- what `new_callable()` hands back -/
+inductive Product where
+  | accepting      -- callable, takes attributes (a MagicMock, a function, an ordinary instance with `__call__`)
+  | rejecting      -- callable, takes no attributes
+  | noncallable
+  deriving Repr, DecidableEq, Inhabited
+
+inductive Style where
+  | withBlock | deco | classDeco | startStop | startStopall
+  deriving Repr, DecidableEq, Inhabited
+
+/-- what the host's `__dict__` holds -/
+inductive Held where
+  | orig | product | other
+  deriving Repr, DecidableEq, Inhabited
+
+structure Obs where
+  entered : Bool          -- `__enter__` / `start()` returned (false: it raised AttributeError / TypeError)
+  during : Option Held    -- what the host held inside the block (none: the block did not run)
+  after : Held            -- what the host holds when the whole statement / the stop() / stopall() is over
+  deriving Repr, DecidableEq, Inhabited
+
+/-- the second half of `_PatchAsync.__enter__` -/
+def attachOk : Product → Bool
+  | .accepting => true        -- attributes set
+  | .noncallable => true      -- `if callable(mock_fn)` is false: nothing to do
+  | .rejecting => false       -- `mock_fn.asynq = ...` raises
+
+/-- the whole activation in the given style (every style ends the patch only if the activation came into being) -/
+def run (prod : Product) (_style : Style) : Obs :=
+  -- `_patch.__enter__`: held := product, temp_original := orig
+  if attachOk prod then
+    -- the block runs with the product in place; `__exit__` / `stop()` / `stopall()` put the original back
+    { entered := true, during := some .product, after := .orig }
+  else
+    -- (repaired) `__enter__` undoes the patch itself (`self.__exit__(*sys.exc_info())`) before the exception leaves it
+    { entered := false, during := none, after := .orig }
+
+/-- C19 for this family: a patch that was active had the product in place, and when the statement is over - however
+    it ended, also by an exception out of `__enter__` - the original is back -/
+def spec (o : Obs) : Bool :=
+  o.after == .orig && (o.during == none || o.during == some .product) && (o.entered == o.during.isSome)
+
+def specClause (o : Obs) : String :=
+  if o.after != .orig then (if o.entered then "original-not-restored" else "enter-failed-original-not-restored")
+  else if !(o.during == none || o.during == some .product) then "replacement-not-installed"
+  else if o.entered != o.during.isSome then "block"
+  else "ok"
+
+end AsynqModel.Mock.EnterFail
